@@ -257,6 +257,7 @@ type PathResult struct {
 	Funcs    map[string]bool
 	Unknowns int
 	QFeas, QAssert int
+	Implicit int
 	Inconclusive []string
 	NSym int // number of symbolic variables created
 	store *Store
@@ -286,6 +287,7 @@ func (m *Machine) resetPath(h *Harness, prefix []int64) {
 	m.viols = nil
 	m.unknowns = 0
 	m.queriesFeas, m.queriesAssert = 0, 0
+	m.implicitChecks = 0
 	m.harness = h
 	m.mapOrderFork = true
 	m.inconclusive = nil
@@ -352,6 +354,7 @@ func (m *Machine) finishPath(res *PathResult, wantWitness bool) {
 	res.Events = m.events
 	res.Unknowns = m.unknowns
 	res.QFeas, res.QAssert = m.queriesFeas, m.queriesAssert
+	res.Implicit = m.implicitChecks
 	res.Inconclusive = m.inconclusive
 	res.NSym = len(m.st.Vars)
 	res.store = m.st
@@ -371,6 +374,7 @@ type HarnessResult struct {
 	Witnesses   []*PathResult
 	Funcs       map[string]bool
 	QFeas, QAssert, Unknowns int
+	Implicit int
 	AssertsProved int
 	AssertLabels map[string]int
 	SymPaths    int // paths with at least one symbolic variable
@@ -433,6 +437,7 @@ func (P *Program) Explore(h *Harness, workers int, maxPaths int, nWitness int) *
 			hr.Steps += res.Steps
 			hr.QFeas += res.QFeas
 			hr.QAssert += res.QAssert
+			hr.Implicit += res.Implicit
 			hr.Unknowns += res.Unknowns
 			if res.NSym > 0 {
 				hr.SymPaths++
